@@ -42,6 +42,7 @@ def numberLike : PyVal → Bool
 
 def isTuple : PyVal → Bool
   | tuple _ _ => true
+  | seqNp true _ => true      -- what the reader returned for a numeric tuple IS a tuple (of numpy scalars)
   | _ => false
 
 def isArr : PyVal → Bool
@@ -57,6 +58,7 @@ def elemStore : PyVal → Option DVal
   | tuple _ (some t) => some (.tok t)
   | list _ (some t) => some (.tok t)
   | arr t => some (.tok t)
+  | seqNp _ t => some (.tok t)          -- a sequence of the entries of a stored array re-coerces to that array (H6)
   | bool b => some (.scalar "bool" (toString b))
   | num k r => some (.scalar k r)
   | npnum _ k r => some (.scalar k r)
@@ -131,7 +133,10 @@ def saveItem : PyVal → R Obj
           pure (.group (contAttrs "list_of_strings" xs.length) (numbered (xs.filterMap PyVal.elemStore)))
         else throw (.error "element without encode")
       else throw (.error "unsupported list")
-  | .seqNp _ _ => throw (.error "read form only")
+  | .seqNp isT t =>
+    -- second generation: the tuple / list of numpy scalars the reader returned is a numeric sequence again, and numpy
+    -- makes the same array of it (H6)
+    pure (.dataset (typeAttr (if isT then "tuple" else "list")) (.tok t))
   | .npbool _ => throw (.error "unsupported type")
   | .bytes _ => throw (.error "unsupported type")
   | .other _ => throw (.error "unsupported type")
